@@ -393,10 +393,12 @@ func extSum256(fr *frame, args []value) value {
 func (in *Interp) encName(p *value) string {
 	for _, n := range []string{"RawURLEncoding", "URLEncoding", "StdEncoding", "RawStdEncoding"} {
 		g := in.eng.prog.ImportedPackage("encoding/base64").Var(n)
-		if gp, ok := in.globals[g]; ok {
-			if q, ok := (*gp).(*value); ok && q == p {
-				return n
-			}
+		if g == nil {
+			continue
+		}
+		gp := in.globalAddr(g)
+		if q, ok := (*gp).(*value); ok && q == p {
+			return n
 		}
 	}
 	return ""
